@@ -24,14 +24,41 @@ def c02_struct(tier="quick", seed=0):
                   f"_invoke_js_function calls {sorted(called & {'_execute', '_execute_opcode', '_call_callback', '_run_callback', 'run', 'append'})}: it only pushes a frame"))
     pushes = [c for c in S.calls_to(inv, "append") if "call_stack" in ast.unparse(c.func)]
     out.append(ob("C02.struct.invoke-pushes-one-frame", len(pushes) == 1, "K3", f"{len(pushes)} call_stack.append in _invoke_js_function"))
-    # every nested run loop (host recursion) is guarded by the explicit native-depth check
-    vm = S.source().modules["microjs.vm"].tree
-    loops = [f for f in S.dispatchers() if f.name != "_execute"]
-    reenter = [f for f in ast.walk(vm) if isinstance(f, ast.FunctionDef) and f.name != "run" and ("_execute" in S.called_names(f) or any(l.name in S.called_names(f) for l in loops))]
-    unguarded = [f.name for f in reenter if "_enter_native" not in S.called_names(f)]
-    out.append(ob("C02.struct.native-depth-guard", not unguarded and len(reenter) >= 2, "K3",
-                  f"functions that re-enter a run loop: {[f.name for f in reenter]}; without _enter_native(): {unguarded}",
-                  witness="function f(){ return [1].map(f) } f()  (or the re-entry path through " + ",".join(unguarded) + ")"))
+    # every nested run loop (host recursion) is entered only through a function that passes the explicit
+    # native-depth check: `chain` = the nested dispatcher(s) and their unguarded wrappers; every call site of a
+    # chain member (and every call of _execute other than VM.run) lies in a chain member or in a guard point
+    allf = {}
+    for mod in ("microjs.vm", "microjs.context"):
+        for f in ast.walk(S.source().modules[mod].tree):
+            if isinstance(f, ast.FunctionDef):
+                allf.setdefault(f.name, []).append(f)
+    guards = {n for n, fs in allf.items() if any("_enter_native" in S.called_names(f) for f in fs)}
+    chain = {f.name for f in S.dispatchers() if f.name != "_execute"}
+    changed = True
+    while changed:
+        changed = False
+        for n, fs in allf.items():
+            if n in chain or n in guards:
+                continue
+            if any(S.called_names(f) & chain for f in fs):
+                chain.add(n)
+                changed = True
+    # wrappers that are themselves entry points (called from natives as vm.X) must be guards: a chain member that
+    # is called from outside chain/guards is an unguarded entry
+    unguarded = []
+    for n, fs in allf.items():
+        if n in chain or n in guards:
+            continue
+        for f in fs:
+            cn = S.called_names(f)
+            if cn & chain:
+                unguarded.append(f"{n} -> {sorted(cn & chain)}")
+            if "_execute" in cn and n != "run":
+                unguarded.append(f"{n} -> _execute")
+    public_chain = [n for n in chain if not n.startswith("_run_")]
+    out.append(ob("C02.struct.native-depth-guard", not unguarded and guards and not public_chain, "K3",
+                  f"nested run loop chain {sorted(chain)}, guard points {sorted(guards)}; unguarded entries: {unguarded}; chain members reachable as entry points: {public_chain}",
+                  witness="function f(){ return [1].map(f) } f()"))
     try:
         en = S.fn("microjs.vm", "VM._enter_native")
         src = ast.unparse(en)
